@@ -1,6 +1,7 @@
 package main
 
 import (
+	"regexp"
 	"fmt"
 	"strings"
 
@@ -110,9 +111,31 @@ func runC16(c *Ctx) {
 			fn := c.Fn("aqua/filters:(*Filter)." + name)
 			f := c.Facts(fn)
 			n := 0
+			// the accumulator is the slice the function returns (identified by that role, not by its name)
+			vc := newValueClasses(fn)
+			var returned []ssa.Value
+			for _, b := range fn.Blocks {
+				if ret, ok := b.Instrs[len(b.Instrs)-1].(*ssa.Return); ok && len(ret.Results) > 0 {
+					r := ret.Results[0]
+					returned = append(returned, r)
+					// a function with defers returns through result cells: take what is stored into them
+					if u, isLoad := r.(*ssa.UnOp); isLoad {
+						if al, isAl := u.X.(*ssa.Alloc); isAl {
+							returned = append(returned, storesInto(fn, al)...)
+						}
+					}
+				}
+			}
 			for _, s := range callSites(fn, `^append$`) {
-				t := f.tr.term(nil, s.Common().Args[0], 0)
-				if !strings.HasPrefix(t, "phi:logs") {
+				isAcc := false
+				if call, ok := s.(*ssa.Call); ok {
+					for _, r := range returned {
+						if vc.same(call, r) {
+							isAcc = true
+						}
+					}
+				}
+				if !isAcc {
 					continue
 				}
 				n++
@@ -173,7 +196,7 @@ func runC16(c *Ctx) {
 		okWild := false
 		for _, b := range fl.Blocks {
 			for _, ins := range b.Instrs {
-				if p, ok := ins.(*ssa.Phi); ok && p.Comment == "match" {
+				if p, ok := ins.(*ssa.Phi); ok && isBoolType(p.Type()) {
 					for _, e := range p.Edges {
 						if ff.tr.term(nil, e, 0) == "(len([][]Hash#0[(phi:rangeindex~2 + 1)]) == 0)" {
 							okWild = true
@@ -187,7 +210,7 @@ func runC16(c *Ctx) {
 		bf := c.Fn("aqua/filters:bloomFilter")
 		fb := c.Facts(bf)
 		c.MustOnAccept("C16-R2", bf, 0, true, []LitReq{
-			{Name: "bloomFilter: address criterion empty or some address is in the bloom", Re: `^(len\(\[\]Address#0\) <= 0|phi:included(~\d+)?|types\.BloomLookup\(Bloom#0, .*\))$`},
+			{Name: "bloomFilter: address criterion empty or some address is in the bloom", Re: `^(len\(\[\]Address#0\) <= 0|` + PH + `|types\.BloomLookup\(Bloom#0, .*\))$`},
 		})
 		okW2 := false
 		for _, b := range bf.Blocks {
@@ -207,7 +230,7 @@ func runC16(c *Ctx) {
 			if fb.tr.term(rs.State, rs.Ret.Results[0], 0) != "false" {
 				continue
 			}
-			_, ok := hasLit(rs.State, mustRe(`^!phi:included(~\d+)?$|^!types\.BloomLookup\(|^len\(.*\) (> 0|!= 0)$`))
+			_, ok := hasLit(rs.State, mustRe(`^!` + PH + `$|^!types\.BloomLookup\(|^len\(.*\) (> 0|!= 0)$`))
 			c.Ob("C16-R2", "bloomFilter rejects only when a non-empty criterion has no member in the bloom", c.Position(rs.Ret.Pos()), ok, strings.Join(guardLits(rs.State), "; "))
 		}
 	})
@@ -219,14 +242,34 @@ func runC16(c *Ctx) {
 		ok9 := false
 		for _, s := range callSites(b9, `^Int\.Lsh$`) {
 			t := f9.tr.term(nil, s.Common().Args[2], 0)
-			ok9 = mustRe(`^\(\(dyn:crypto\.Keccak256\(\[\[\]byte#0\[:\]\]\)\[\(phi:i \+ 1\)\] \+ \(dyn:crypto\.Keccak256\(\[\[\]byte#0\[:\]\]\)\[phi:i\] << 8\)\) & 2047\)$`).MatchString(t)
+			ok9 = mustRe(`^\(\(dyn:crypto\.Keccak256\(\[\[\]byte#0\[:\]\]\)\[\(` + PH + ` \+ 1\)\] \+ \(dyn:crypto\.Keccak256\(\[\[\]byte#0\[:\]\]\)\[` + PH + `\] << 8\)\) & 2047\)$`).MatchString(t) && onePhiVar(t)
 			if !ok9 {
 				c.Info("C16-R3", "bloom9 index term", c.Position(s.Pos()), t)
 			}
 		}
-		init, step, okl := phiInitStep(c, b9, "i")
-		limOK, lim := allHave(f9.At(callSites(b9, `^Int\.Lsh$`)[0]), mustRe(`^phi:i < 6$`))
-		c.Ob("C16-R3", "bloom9 sets bits ((h[i]<<8)+h[i+1]) & 2047 for i = 0, 2, 4 of the Keccak hash", c.FnPos(b9), ok9 && okl && init == "0" && step == "(phi:i + 2)" && limOK, fmt.Sprintf("i := %s; step %s; %s", init, step, lim))
+		// the loop variable is the one indexing the hash bytes in that term
+		var b9i *ssa.Phi
+		for _, b := range b9.Blocks {
+			for _, ins := range b.Instrs {
+				if ia, ok := ins.(*ssa.IndexAddr); ok {
+					if p, isPhi := ia.Index.(*ssa.Phi); isPhi {
+						b9i = p
+					}
+				}
+				if ix, ok := ins.(*ssa.Index); ok {
+					if p, isPhi := ix.Index.(*ssa.Phi); isPhi {
+						b9i = p
+					}
+				}
+			}
+		}
+		init, step, okl := phiInitStepOf(c, b9, b9i)
+		self9 := ""
+		if b9i != nil {
+			self9 = f9.tr.term(nil, b9i, 0)
+		}
+		limOK, lim := allHave(f9.At(callSites(b9, `^Int\.Lsh$`)[0]), mustRe(`^`+regexp.QuoteMeta(self9)+` < 6$`))
+		c.Ob("C16-R3", "bloom9 sets bits ((h[i]<<8)+h[i+1]) & 2047 for i = 0, 2, 4 of the Keccak hash", c.FnPos(b9), ok9 && okl && init == "0" && step == "("+self9+" + 2)" && limOK, fmt.Sprintf("i := %s; step %s; %s", init, step, lim))
 		ci := c.Fn("core/bloombits:calcBloomIndexes")
 		fi := c.Facts(ci)
 		okI := false
@@ -235,7 +278,7 @@ func runC16(c *Ctx) {
 				if st, ok := ins.(*ssa.Store); ok {
 					if _, ok := st.Addr.(*ssa.IndexAddr); ok {
 						t := fi.tr.term(nil, st.Val, 0)
-						okI = mustRe(`^\(\(\(dyn:crypto\.Keccak256\(\[\[\]byte#0\]\)\[\(2 \* phi:i\)\] << 8\) & 2047\) \+ dyn:crypto\.Keccak256\(\[\[\]byte#0\]\)\[\(\(2 \* phi:i\) \+ 1\)\]\)$`).MatchString(t)
+						okI = mustRe(`^\(\(\(dyn:crypto\.Keccak256\(\[\[\]byte#0\]\)\[\(2 \* ` + PH + `\)\] << 8\) & 2047\) \+ dyn:crypto\.Keccak256\(\[\[\]byte#0\]\)\[\(\(2 \* ` + PH + `\) \+ 1\)\]\)$`).MatchString(t) && onePhiVar(t)
 						if !okI {
 							c.Info("C16-R3", "calcBloomIndexes index term", c.Position(st.Pos()), t)
 						}
@@ -259,7 +302,7 @@ func runC16(c *Ctx) {
 					okk = true
 				}
 			}
-			good := t == "phi:end" || strings.HasSuffix(t, "- 1)") || strings.HasPrefix(t, "Filter#0.end")
+			good := phiTok(t) == t && t != "" || strings.HasSuffix(t, "- 1)") || strings.HasPrefix(t, "Filter#0.end")
 			c.Ob("C16-R3", "Filter.Logs: the indexed part ends at min(end, sections*size-1)", c.Position(s.Pos()), good && okk, "indexedLogs(ctx, "+t+")")
 		}
 		c.MustBefore("C16-R3", lg, `^Filter\.indexedLogs$`, 2, []LitReq{{Name: "index is used only for heights below sections*size", Re: `^\(Filter#0\.backend\.BloomStatus\(\)#1 \* Filter#0\.backend\.BloomStatus\(\)#0\) > Filter#0\.begin$`}})
@@ -306,6 +349,35 @@ func runC16(c *Ctx) {
 			}
 		}
 		c.Ob("C16-R4", "the handler fills task.Bitsets", c.FnPos(h), n >= 1, fmt.Sprintf("%d stores", n))
+		// the stored bit vectors go through bitutil.CompressBytes / DecompressBytes: the reader decides "stored raw" by
+		// length == target, so the writer may store the encoding only when it is strictly shorter than the input
+		cb := c.Fn("common/bitutil:CompressBytes")
+		fcb := c.Facts(cb)
+		nenc, nraw := 0, 0
+		for _, rs := range fcb.AllReturns() {
+			t := fcb.tr.term(rs.State, rs.Ret.Results[0], 0)
+			if strings.HasPrefix(t, "bitutil.bitsetEncodeBytes(") {
+				nenc++
+				c.Ob("C16-R4", "CompressBytes returns the encoding only if it is strictly shorter than the data (equal length means raw to the reader)", c.Position(rs.Ret.Pos()),
+					rs.State.lits["len("+t+") < len([]byte#0)"], strings.Join(guardLits(rs.State), "; "))
+			} else {
+				nraw++
+				_, cp := hasLit(rs.State, mustRe(`^called:copy\(`+regexp.QuoteMeta(t)+`, \[\]byte#0\)$`))
+				c.Ob("C16-R4", "CompressBytes otherwise returns a copy of the data", c.Position(rs.Ret.Pos()), cp, "returns "+t)
+			}
+		}
+		c.Ob("C16-R4", "CompressBytes has both outcomes", c.FnPos(cb), nenc >= 1 && nraw >= 1, fmt.Sprintf("%d encoded, %d raw", nenc, nraw))
+		db := c.Fn("common/bitutil:DecompressBytes")
+		fdb := c.Facts(db)
+		for _, rs := range fdb.AcceptingReturns(-1, false) {
+			t := fdb.tr.term(rs.State, rs.Ret.Results[0], 0)
+			if strings.HasPrefix(t, "bitutil.bitsetDecodeBytes(") {
+				c.Ob("C16-R4", "DecompressBytes decodes exactly the inputs shorter than the target", c.Position(rs.Ret.Pos()),
+					rs.State.lits["len([]byte#0) != int#0"] && rs.State.lits["len([]byte#0) <= int#0"], strings.Join(guardLits(rs.State), "; "))
+			} else {
+				c.Ob("C16-R4", "DecompressBytes takes an input of exactly the target length as raw", c.Position(rs.Ret.Pos()), rs.State.lits["len([]byte#0) == int#0"], strings.Join(guardLits(rs.State), "; "))
+			}
+		}
 	})
 	c.Min("C16-R4", 3)
 }
